@@ -1,7 +1,7 @@
 /* wcoll engine: read_wcoll() of the repository on real files in a scratch directory.
  * case:  wcoll <dirhex> <filehex>      (chdir to dir, read_wcoll(file, NULL))
  * answer: OK W=<number of warnings> <hosts hex,...>  |  FATAL
- *         HANG ... (child killed by its 5 s alarm)  |  CRASHED signal <n>
+ *         HANG ... (child killed by its 20 s alarm)  |  CRASHED signal <n>
  * Each case runs in a forked child because read errors call errx() -> exit(1). */
 #include <stdio.h>
 #include <stdlib.h>
@@ -40,7 +40,7 @@ int main(void)
             close(po[0]); close(pe[0]);
             dup2(po[1], 1); dup2(pe[1], 2);
             if (chdir(dir) < 0) _exit(3);
-            alarm(5);                   /* an include loop must not hang the run: SIGALRM -> HANG */
+            alarm(20);                  /* an include loop must not hang the run: SIGALRM -> HANG */
             hl = read_wcoll(file, NULL);
             if (!hl) _exit(4);
             it = hostlist_iterator_create(hl);
@@ -68,7 +68,7 @@ int main(void)
                 while ((p = strstr(p, "warning:"))) { w++; p += 8; }
                 printf("OK W=%d %s\n", w, ob);
             } else if (WIFSIGNALED(st) && WTERMSIG(st) == SIGALRM)
-                printf("HANG no answer within 5 s\n");
+                printf("HANG no answer within 20 s\n");
             else if (WIFSIGNALED(st))
                 printf("CRASHED signal %d\n", WTERMSIG(st));
             else
